@@ -1,7 +1,7 @@
 (* C11  Include loading is independent of cache history.
    Against the pinned tree this statement was refuted (a cache hit returned the cached journal
    without following its own includes and without marking it visited); the defect was repaired in
-   /repo (fix 01b2939) and the model follows the repaired code.  For the repaired loader the FULL
+   /repo (fix 01b2939; the traversal itself was repaired again for C10) and the model follows the repaired code.  For the repaired loader the FULL
    statement is a theorem. *)
 From HL Require Import Lib.Bytes Model.Loader Spec.LoaderSpec Tie.C10 Tie.C11 Proofs.LoaderProofs
   Proofs.LoaderTraversal Proofs.LoaderHistory.
@@ -20,11 +20,11 @@ Proof. exact sys_ok_step. Qed.
 Print Assumptions C11_cache_stays_coherent.
 
 (* and the core: within one load, the result does not depend on which coherent cache it starts with *)
-Theorem C11_result_independent_of_cache : forall fs L fuel p dirs v c1 c2 o1,
+Theorem C11_result_independent_of_cache : forall fs L fuel p dirs S V c1 c2 o1,
   coherent fs L c1 -> coherent fs L c2 ->
-  load_wc fuel fs L p dirs (mkLS v c1) = Some o1 ->
-  exists o2, load_wc fuel fs L p dirs (mkLS v c2) = Some o2 /\ agree o1 o2 /\
-             coherent fs L (cache (o_st o1)) /\ coherent fs L (cache (o_st o2)).
+  load_wc fuel fs L p dirs (mkLS S V c1) = Some o1 ->
+  exists o2, load_wc fuel fs L p dirs (mkLS S V c2) = Some o2 /\ agree o1 o2 /\
+             coherent fs L (cache (w_st o1)) /\ coherent fs L (cache (w_st o2)).
 Proof. exact load_wc_cache_indep. Qed.
 Print Assumptions C11_result_independent_of_cache.
 
